@@ -171,6 +171,7 @@ class FucResult:
         self.secs = 0.0
         self.covered = set()
         self.missing_cover = []
+        self.vacuity = None
 
     def as_dict(self):
         d = dict(self.__dict__)
@@ -196,66 +197,102 @@ def verify_fuc(spec, opts):
     res.sha = hashlib.sha256(mod.source_of(fnode).encode()).hexdigest()[:16]
     res.decorators = mod.decorator_facts(fnode)
     spec.first_line = fnode.lineno
-    prefix = []
-    seen_unsupported = set()
     from . import state as _state
     from . import interp as _interp
-    _interp.MODULAR_OWNER.clear()
-    _state.OBL_CACHE.clear()
-    del _state.DEFERRED[:]
-    all_obls = []
-    while prefix is not None:
-        if res.paths >= spec.max_paths:
-            res.undecided.append('path budget %d exhausted' % spec.max_paths)
-            break
-        ctl = PathCtl(prefix)
-        core.reset_sorts(o.get('finite_refs'))
-        st = State(ctl, o)
-        I = Interp(st, spec, mod, clsname)
-        I.fnode = fnode
-        res.paths += 1
-        try:
-            for f, k in spec.fields.items():
-                st.declare_field(f, k)
-            args = spec.setup(I)
-            ctx = {'pre': st.snapshot(), 'args': args, 'alloc0': st.alloc}
-            st.setup_len = len(st.pc)
-            fg = set()
-            for ls in spec.loops.values():
-                fg |= set(getattr(ls, 'frame_fields', ()))
-            st.frame_guard = fg
-            I.frame = Frame({}, None, clsname)
-            args = fill_defaults(I, fnode, args)
-            outcome = I.run_function(fnode, args)
-            st.ghost['__outcome__'] = outcome
-            spec.post(I, outcome, ctx)
-            for lbl in st.ghost.get('__cover__', ()):
-                res.covered.add(lbl)
-        except PathKill:
-            res.killed += 1
-        except Unsupported as u:
-            msg = 'unsupported: %s' % u
-            if msg not in seen_unsupported:
-                seen_unsupported.add(msg)
-                res.undecided.append(msg)
-        except RaiseSig as r:
-            res.errors.append('exception escaped the harness: %r' % (r.exc,))
-        except (ReturnSig, BreakSig, ContinueSig) as e:
-            res.errors.append('control signal escaped: %r' % e)
-        except z3.Z3Exception as e:
-            res.errors.append('z3: %s\n%s' % (e, traceback.format_exc(limit=6)))
-        except Exception as e:  # engine bug
-            res.errors.append('engine: %r\n%s' % (e, traceback.format_exc(limit=8)))
-        all_obls.extend(st.obls)
-        for lbl in st.ghost.get('__cover__', ()):
-            res.covered.add(lbl)
-        res.notes.extend(n for n in st.notes if n not in res.notes)
-        res.trusted |= st.trusted_used
-        for b in I.bounded_loops:
-            if b not in res.bounded:
-                res.bounded.append(b)
-        prefix = ctl.next_prefix()
+    seen_unsupported = set()
+
+    def explore(oo, record):
+        """enumerate the paths of the function under options oo; returns the obligations generated"""
+        _interp.MODULAR_OWNER.clear()
+        _state.OBL_CACHE.clear()
+        del _state.DEFERRED[:]
+        obls = []
+        prefix = []
+        npaths = 0
+        while prefix is not None:
+            if npaths >= spec.max_paths:
+                if record:
+                    res.undecided.append('path budget %d exhausted' % spec.max_paths)
+                break
+            ctl = PathCtl(prefix)
+            core.reset_sorts(oo.get('finite_refs'))
+            st = State(ctl, oo)
+            I = Interp(st, spec, mod, clsname)
+            I.fnode = fnode
+            npaths += 1
+            if record:
+                res.paths += 1
+            try:
+                for f, k in spec.fields.items():
+                    st.declare_field(f, k)
+                args = spec.setup(I)
+                ctx = {'pre': st.snapshot(), 'args': args, 'alloc0': st.alloc}
+                st.setup_len = len(st.pc)
+                fg = set()
+                for ls in spec.loops.values():
+                    fg |= set(getattr(ls, 'frame_fields', ()))
+                st.frame_guard = fg
+                I.frame = Frame({}, None, clsname)
+                args = fill_defaults(I, fnode, args)
+                outcome = I.run_function(fnode, args)
+                st.ghost['__outcome__'] = outcome
+                spec.post(I, outcome, ctx)
+            except PathKill:
+                if record:
+                    res.killed += 1
+            except Unsupported as u:
+                msg = 'unsupported: %s' % u
+                if record and msg not in seen_unsupported:
+                    seen_unsupported.add(msg)
+                    res.undecided.append(msg)
+            except RaiseSig as r:
+                if record:
+                    res.errors.append('exception escaped the harness: %r' % (r.exc,))
+            except (ReturnSig, BreakSig, ContinueSig) as e:
+                if record:
+                    res.errors.append('control signal escaped: %r' % e)
+            except z3.Z3Exception as e:
+                if record:
+                    res.errors.append('z3: %s\n%s' % (e, traceback.format_exc(limit=6)))
+            except Exception as e:  # engine bug
+                if record:
+                    res.errors.append('engine: %r\n%s' % (e, traceback.format_exc(limit=8)))
+            obls.extend(st.obls)
+            if record:
+                for lbl in st.ghost.get('__cover__', ()):
+                    res.covered.add(lbl)
+                res.notes.extend(n for n in st.notes if n not in res.notes)
+                res.trusted |= st.trusted_used
+                for b_ in I.bounded_loops:
+                    if b_ not in res.bounded:
+                        res.bounded.append(b_)
+            prefix = ctl.next_prefix()
+        return obls
+
+    all_obls = explore(o, True)
+    vacuity_check(spec, o, res, mod, fnode, clsname)
     _state.solve_all_deferred(o, o.get('solve_procs', 4))
+    # finite-scope counter-example search for obligations the solvers left open: a model over an enumeration of n
+    # references is a genuine counter-model of the verification condition
+    open_ = {(ob.name, ob.path) for ob in all_obls if ob.verdict in ('unknown', 'candidate')}
+    if open_ and not o.get('finite_refs'):
+        for n in o.get('cex_scopes', (3, 4, 5)):
+            if not open_:
+                break
+            names = {k[0] for k in open_}
+            oo = dict(o, finite_refs=n, only_names=names, timeout_ms=min(int(o.get('timeout_ms', 10000)), 15000))
+            found = explore(oo, False)
+            _state.solve_all_deferred(oo, o.get('solve_procs', 4))
+            for fo in found:
+                if fo.name in names and fo.verdict == 'sat':
+                    for ob in all_obls:
+                        if ob.name == fo.name and (ob.name, ob.path) in open_:
+                            ob.verdict, ob.backend, ob.model = 'sat', 'z3-finite-scope(%d refs)' % n, fo.model
+                            ob.path = fo.path
+                            ob.secs += fo.secs
+                            open_.discard((ob.name, ob.path))
+                    open_ = {k for k in open_ if k[0] != fo.name}
+        core.reset_sorts(o.get('finite_refs'))
     for ob in all_obls:
         d = ob.as_dict()
         d['name'] = '%s/%s' % (spec.ident, ob.name)
@@ -268,6 +305,45 @@ def verify_fuc(spec, opts):
     res.missing_cover = [c for c in spec.cover if c not in res.covered]
     res.secs = time.time() - t0
     return res
+
+
+def vacuity_check(spec, o, res, mod, fnode, clsname):
+    """the contract's requires (setup assumptions) must be satisfiable: searched in a finite scope of references
+    (z3 answers `unknown` on satisfiable quantified formulas over an uninterpreted sort)"""
+    t0 = time.time()
+    verdict = 'unknown'
+    for n in o.get('vacuity_scopes', (3, 5)):
+        core.reset_sorts(n)
+        st = State(PathCtl([]), dict(o, defer=False))
+        I = Interp(st, spec, mod, clsname)
+        I.fnode = fnode
+        try:
+            for f, k in spec.fields.items():
+                st.declare_field(f, k)
+            spec.setup(I)
+        except PathKill:
+            verdict = 'unsat'
+            continue
+        except Exception as e:
+            res.notes.append('vacuity check skipped: %r' % (e,))
+            verdict = 'skipped'
+            break
+        s = z3.Solver()
+        s.set('timeout', int(o.get('vacuity_timeout_ms', 8000)))
+        consts = core._REF_SORT[0][1]
+        cache = {}
+        for f in st.pc:
+            s.add(solve.expand_finite(f, consts, cache))
+        r = s.check()
+        verdict = str(r)
+        if r == z3.sat:
+            break
+    core.reset_sorts(o.get('finite_refs'))
+    res.vacuity = {'requires_satisfiable': verdict, 'secs': round(time.time() - t0, 2)}
+    if verdict == 'unsat':
+        res.errors.append('vacuity: the requires of %s are contradictory (unsat in finite scope)' % spec.ident)
+    elif verdict == 'unknown':
+        res.notes.append('vacuity: satisfiability of requires undecided in finite scope')
 
 
 def fill_defaults(I, fnode, args):
